@@ -73,6 +73,7 @@ def handle (toks : List String) : String :=
       | ["forlookup", a] => (unhexRunes? a).elim "bad-op" (fun a => showRes (forLookup P a))
       | ["cleandomain", a] => (unhexRunes? a).elim "bad-op" (fun a => showRes (cleanDomain P a))
       | ["dnsforlookup", a] => (unhexRunes? a).elim "bad-op" (fun a => showRes (dnsForLookup P a))
+      | ["valid", a] => (unhexRunes? a).elim "bad-op" (fun a => if valid P a then "1" else "0")
       | ["equal", a, b] => match unhexRunes? a, unhexRunes? b with
         | some a, some b => if equal P a b then "1" else "0"
         | _, _ => "bad-op"
